@@ -346,6 +346,7 @@ class HistoryRun:
             return
         rmtree(d)
         os.makedirs(os.path.join(d, "ws"))
+        os.symlink("ws", os.path.join(d, "wsl"))  # another way to reach the project (arm symlink_out)
         self.toggles[proj] = set(toggles)
         self._write_sources(proj, self.toggles[proj], only_changed=False)
         self._touch_sources(proj)
@@ -689,6 +690,8 @@ class HistoryRun:
             lines[at:at] = ["<<<<<<< HEAD", 'edition = "2021"', "=======", 'edition = "2024"', ">>>>>>> topic"]
             data["sdk/Cargo.toml"] = "\n".join(lines).encode()
             data["Cargo.toml"] = self.w.base["Cargo.toml"]
+        if state == "crlf":
+            data["sdk/src/lib.rs"] = data["sdk/src/lib.rs"].replace(b"\r\n", b"\n").replace(b"\n", b"\r\n")
         if state == "flipped":
             rel = step["flip"]["file"]
             if rel == "sdk/src/lib.rs":
